@@ -8,20 +8,24 @@ from vlib import *
 from marshallib import *
 import marshalgen as mg
 
-THEOREMS = ["C16_flat_roundtrip", "C16_int_all_widths", "C16_uint64_roundtrip", "C16_string_roundtrip", "C16_bytes_roundtrip",
-            "C16_bool_roundtrip", "C16_float64_roundtrip", "C16_pointer_roundtrip", "C16_sorted_keys_deterministic",
-            "C16_sort_keys_sorted", "C16_roundtrip_all_refuted_empty_slice", "C16_roundtrip_all_refuted_bigint",
-            "C16_decimal_value_panics", "C16_annotation_only_struct_diverges"]
+THEOREMS = ["C16_flat_roundtrip", "C16_int_all_widths", "C16_uint64_roundtrip", "C16_string_roundtrip",
+            "C16_bytes_roundtrip", "C16_bool_roundtrip", "C16_float64_roundtrip", "C16_pointer_roundtrip",
+            "C16_sorted_keys_deterministic", "C16_sort_keys_sorted", "C16_roundtrip_rty", "C16_marshal_denotes_ion_of",
+            "C16_unmarshal_inverts_ion_of", "C16_empty_slice_roundtrip", "C16_bigint_roundtrip", "C16_decimal_value_roundtrip",
+            "C16_annotation_only_struct_is_error", "C16_roundtrip_all_refuted_nested_nil"]
 
 LEVEL = "proof"
 EXPLANATION = ("Gallina model of marshal.go (Go/Encode.v: the Writer call sequence of Encoder.encodeValue) and of unmarshal.go; "
-               "values_of turns a call sequence into Ion values independently; theorems: decode_to t (value_of (encode t v)) = Ok v "
-               "for the flat kinds (bool, every integer width, float64, string, []byte) and through pointers, map-key sorting makes "
-               "the call sequence independent of iteration order; the full-universe statement is refuted by proved witnesses "
-               "(empty slice -> nil, big.Int -> {}); model tied to ion.Encoder (recording Writer), MarshalText/MarshalBinary + "
-               "Unmarshal on declared and reflect-built types (K11); every round trip is judged by printed-value equality.")
-ASSUMPTIONS = ["Go == model only on the inputs sampled", "round-trip theorems cover the flat kinds and pointers to them; slices, arrays, "
-               "maps, structs, interfaces are covered by correspondence + oracle",
+               "values_of turns a call sequence into Ion values independently; main theorem C16_roundtrip_rty: for every type of the "
+               "round-trip universe (bool, all integer kinds, float64, string, []byte, big.Int, Decimal, Timestamp; slices, arrays, "
+               "maps, pointers, structs with renamed fields, nested to any depth) and every value v of it, "
+               "decode_to t (value_of (encode t v)) = Ok v, proved by induction on the type through the documented image ion_of; "
+               "map-key sorting makes the call sequence a function of the sorted keys; over all types the statement is refuted "
+               "(pointer to nil slice); model tied to ion.Encoder (recording Writer), MarshalText/MarshalBinary + Unmarshal on "
+               "declared and reflect-built types (K11); every round trip is judged by printed-value equality.")
+ASSUMPTIONS = ["Go == model only on the inputs sampled",
+               "round-trip theorem: no interface{}, float32, omitempty/hint/annotation tags, embedded fields (those are covered by "
+               "correspondence + oracle)",
                "time.Time is judged by the oracle only (its calendar conversion is not modelled)"]
 
 
@@ -51,6 +55,8 @@ def iface_norm(dt, x):
     if k in ("L", "A"):
         if x[1] is None:
             return ("I", None)
+        if len(x[1]) == 0:
+            return ("I", (("L", ("I",)), ("L", None)))     # Decoder.Decode of [] is a nil []interface{} (pinned by TestDecode)
         et = dt[1] if k == "L" else dt[2]
         return ("I", (("L", ("I",)), ("L", [iface_norm(et, doc_norm(et, e)) if et[0] != "I" else inner_iface(e) for e in x[1]])))
     if k == "M":
@@ -90,6 +96,8 @@ def doc_norm(t, g):
         for (name, ex, emb, tag, ft), x in zip(t[1], g[1]):
             if tag == b"-" or not (ex or emb):
                 out.append(zero(ft))           # documented: hidden / unexported fields are not marshalled
+            elif b"omitempty" in tag.split(b",")[1:] and mg.is_empty(ft, x):
+                out.append(zero(ft))           # documented: an empty value is omitted, so it comes back as the zero value
             else:
                 out.append(doc_norm(ft, x))
         return ("S", out)
@@ -112,6 +120,8 @@ def oracle(line, go):
         except Exception as e:
             return "oracle could not parse the request: %r" % (e,)
         if go == "err":
+            if unsupported_shape(t):
+                return None      # duplicate field names / no value field next to the annotations: an error is the answer
             return "Marshal or Unmarshal of its output returned an error"
         try:
             got, _ = parse_gv(go.split(" "), 1)
@@ -121,6 +131,22 @@ def oracle(line, go):
         if got != want:
             return "round trip changed the value: got %s want %s" % (" ".join(gv_tokens(got))[:120], " ".join(gv_tokens(want))[:120])
     return None
+
+
+def unsupported_shape(t):
+    if t[0] == "ST":
+        try:
+            fs = py_fields(t)
+        except DupField:
+            return True
+        if fs and all(f[4] for f in fs):
+            return True
+        return any(unsupported_shape(f[4]) for f in t[1])
+    if t[0] in ("L", "M", "P"):
+        return unsupported_shape(t[1])
+    if t[0] == "A":
+        return unsupported_shape(t[2])
+    return False
 
 
 # ---------------------------------------------------------------------------
@@ -196,6 +222,8 @@ def triggers(t, g):
                     tr.add("embedded-ptr")
                 if emb and not ex:
                     tr.add("embedded-unexported")
+                if emb and not ex and ft[0] == "P" and tag.split(b",")[0] != b"":
+                    tr.add("tagged-unexported-embedded-ptr")
 
     walk_tv(t, g, f)
     return tr
@@ -215,25 +243,18 @@ def classify_case(line, m, g):
         return None
     tr = triggers(t, v)
     if g == "panic":
-        if "dup-names" in tr:
-            return "duplicate-field-names-panic"
-        if "decimal-value" in tr:
-            return "Decimal-value-not-addressable-panics"
-        if "ann-struct" in tr:
-            return "annotations-field-misuse-panics"
-        if "symtok" in tr:
-            return "symbol-into-SymbolToken-reflect-set-panic"
         return None
     if ts[0] != "roundtrip":
         return None
+    if g == "err" and "tagged-unexported-embedded-ptr" in tr:
+        return "tagged-unexported-embedded-pointer-cannot-be-unmarshalled"
     # order: the most specific defect first
-    for key, cls in (("embedded-special", "embedded-Timestamp-Decimal-bigInt-silently-dropped"), ("bigint", "bigInt-marshals-as-empty-struct"), ("ann-struct", "annotation-wrapper-does-not-round-trip"),
+    for key, cls in (("ann-struct", "annotation-wrapper-does-not-round-trip"),
                      ("symtok", "SymbolToken-marshals-as-plain-struct"),
-                     ("empty-slice", "empty-slice-unmarshals-to-nil"), ("omit-empty-nonnil", "empty-slice-unmarshals-to-nil"),
                      ("iface-leaf", "interface-container-leaves-come-back-as-pointers"),
                      ("hint-into-iface", "hinted-value-inside-interface-changes-type"),
                      ("symbol-hint", "symbol-hinted-string-comes-back-via-SymbolToken-or-sid"),
-                     ("ptr-to-nil", "pointer-to-nil-collapses-to-nil-pointer"), ("omit-negzero", "omitempty-drops-negative-zero")):
+                     ("ptr-to-nil", "pointer-to-nil-collapses-to-nil-pointer")):
         if key in tr:
             return cls
     return None
@@ -361,7 +382,7 @@ def run(ctx):
         if tv in seen:
             continue
         seen.add(tv)
-        if has_plain_symtok(t) or only_annotation_fields(t):
+        if has_plain_symtok(t):
             continue
         if sidlike_symbol(t, g):
             sid_lines.append("roundtrip t " + tv)
@@ -403,9 +424,9 @@ def run(ctx):
         if o.split(" ")[0] in ("panic", "fatal", "err"):
             ctx.fail("property", "K11-time", ln, "time.Time round trip: " + o)
     ctx.count("K11-time", len(tl), tl, sample=tl[0])
-    # a struct whose only fields are annotation fields: Marshal never returns (fatal stack overflow)
+    # a struct whose only fields are annotation fields used to recurse without bound: now an error
     ln = "marshal_text ST 1 x41 en x2c616e6e6f746174696f6e73 L SYM S 1 Lnil"
     o = run_go([ln], parallel=False)[0]
-    if o.startswith("fatal") or o == "panic":
-        ctx.fail("property", "K11-marshal", ln, "real code: " + o, "annotation-only-struct-unbounded-recursion")
+    if o != "err":
+        ctx.fail("property", "K11-marshal", ln, "real code: " + o)
     ctx.count("K11-marshal", 1, [ln])
